@@ -156,13 +156,11 @@ def wrap_ok(carrier, pre, ck, ret, params):
     """Which (carrier, pre-decoration, kind, signature) combinations exist in family W."""
     if ck == "lambda_ann" and not (any(p[3] for p in params) or ret):
         return False  # a lambda without annotations: nothing to wrap
-    if ck == "async" and ret and (carrier == "instance" or (pre != "raw" and carrier in ("boundmethod", "partial", "partial-pos"))):
-        # the object handed to jaxtyped is NOT a coroutine function (inspect.iscoroutinefunction
-        # is False for a plain __call__ and for the jaxtyped wrapper of a coroutine function, hence
-        # for its bound-method / partial object) yet hands out a coroutine: its result does not
-        # satisfy a return annotation describing the awaited value - outside the statement.
-        # (Observed on the unchanged tree: such a call raises TypeCheckError; see the notes.)
-        return False
+    # (A callable that is not itself a coroutine function but wraps one - the jaxtyped wrapper of
+    # an `async def`, its bound method, a callable instance with __wrapped__ - hands out a
+    # coroutine object whose awaited value the return annotation describes.  Such calls used to
+    # raise TypeCheckError (second decoration of an async function); repaired by /repo commit
+    # be3a882, and part of the space since.)
     if carrier == "partial-pos" and not (params and params[0][0] in ("PO", "PK")):
         return False
     if pre == "jt-none" and ck == "gen":
